@@ -238,7 +238,7 @@ func (l *LinearLocator) Slice(i, j int) (Locator, error) {
 	// We do not care about right.
 	newLL := *l
 	newLL.left += i
-	newLL.length = j - i + 1
+	newLL.length = j - i
 	return &newLL, nil
 }
 
